@@ -541,8 +541,8 @@ class ConcWorld(World):
                 b = 3 if hi is None else hi
                 v = self.rng.randint(a, b)
             else:
-                a = (0.25 if pos else (0.0 if nonneg else -2.0)) if lo is None else float(lo)
-                b = (a + 3.0) if hi is None else float(hi)
+                a = (0.25 if pos else (0.0 if nonneg else -2.0)) if lo is None else float(Fraction(lo))
+                b = (a + 3.0) if hi is None else float(Fraction(hi))
                 v = round(self.rng.uniform(a, b) * 64) / 64
                 if (pos or nz) and v == 0:
                     v = 0.5
